@@ -119,7 +119,7 @@ def run(eng, tier):
         ('already-approved', 'L', lambda e: isf(e, ('is', STATUS, 'Ready'))),
         ('size-mismatch', 'L', lambda e: isf(e, ('val', EQ(F(ASK, 'size'), M(v, 'size')), False))),
         ('base-mismatch', 'L', lambda e: isf(e, ('val', EQ(F(CFG, 'base_denom'), M(v, 'base')), False))),
-        ('id-not-canonical', 'L', lambda e: e['fact'] is not None and e['fact'][0] == 'or' and 'uuid_parse' in repr(e['fact'])),
+        ('id-not-canonical', 'L', lambda e: id_not_canonical_fact(e['fact'], M(v, 'id'))),
         ('empty-base', 'L', lambda e: isf(e, ('val', ISEMPTY(M(v, 'base')), True))),
         ('size-below-1', 'L', lambda e: is_sign(e['fact'], M(v, 'size'), 'zero')),
         ('storage', 'I', lambda e: is_save_err(e['fact']) or is_storage_load_err(e['fact'])),
